@@ -396,7 +396,7 @@ Proof.
   intros s0 Ex X inp s HI. induction k as [|k IH]; intros d i Hk Hi [HG HR]; [lia|].
   destruct (mi_kind _ _ _ _ _ HI d i Hi) as [(K1 & _ & _ & _ & K5)|(K1 & e & l & He & Hev & Hl)].
   - apply MSpecI_input; assumption.
-  - eapply MSpecI_exec; eauto. eapply ev_msev; [eapply evr_ev; exact Hev|].
+  - eapply MSpecI_exec; eauto. eapply evr_msev; [exact Hev|].
     intros y v _ [t Ho].
     assert (Hy : In y (old_fwd s d)).
     { unfold old_fwd. rewrite Hi. eapply mi_obs_fwd; eauto. }
